@@ -40,6 +40,26 @@ DaysIn(y, m) == CASE m \in {1, 3, 5, 7, 8, 10, 12} -> 31
 DateValid(d) == /\ d[2] \in 1..12 /\ d[3] \in 1..DaysIn(d[1], d[2])
                 /\ d[4] \in 0..23 /\ d[5] \in 0..59 /\ d[6] \in 0..59
 
+\* Creation time as exposed (a time.Time in UTC): the civil date-time the six numbers
+\* denote, with out-of-range components carried the way time.Date carries them (month
+\* into year; day, hour, minute, second linearly).  Compared as days since 1970-01-01 and
+\* second of the day, so that every bit of every component is accounted for - also the
+\* patterns that are not valid calendar dates.
+DaysFromCivil(y0, m) ==            \* days from 1970-01-01 to the first of month m (1..12) of year y0
+    LET y == IF m <= 2 THEN y0 - 1 ELSE y0
+        era == y \div 400
+        yoe == y - era * 400
+        mp == (m + 9) % 12
+        doy == (153 * mp + 2) \div 5
+        doe == yoe * 365 + yoe \div 4 - yoe \div 100 + doy
+    IN era * 146097 + doe - 719468
+UnixOf(d) ==
+    LET m0 == d[2] - 1
+        y == d[1] + m0 \div 12
+        m == (m0 % 12) + 1
+        S == 3600 * d[4] + 60 * d[5] + d[6]
+    IN << DaysFromCivil(y, m) + (d[3] - 1) + S \div 86400, S % 86400 >>
+
 \* profile flags: bit 0 (least significant bit of the last byte) = embedded,
 \* bit 1 = cannot be used independently of the embedded colour data
 Bit(byte, n) == (byte \div (2 ^ n)) % 2 = 1
@@ -68,6 +88,7 @@ HeaderOK(e) ==
     /\ e.ok = Accepted(e.hdr)
     /\ e.ok => /\ e.obs = Expected(e.hdr)
                /\ DateValid(DateOf(e.hdr)) => e.date = DateOf(e.hdr)
+               /\ e.unix = UnixOf(DateOf(e.hdr))
 
 VersionOK(e) == e.str = VersionString(e.major, e.minor)
 
